@@ -157,11 +157,11 @@ type World struct {
 	Late    []string // transport writes that started when the stream had already reported Finished
 }
 
-func NewWorld(split int, manual bool, wsize int) *World {
+func NewWorld(split int, manual bool, wsize int, maxbuf ...int) *World {
 	w := &World{D: director.New(), W: &director.Writer{AutoOK: true}, parked: map[int]chan struct{}{}, mparked: map[int]chan struct{}{}, remotes: remoteTable{}, seen: map[int]bool{}, kinds: map[int]string{}}
 	w.Enc = &Enc{}
 	wr := drpcwire.NewWriter(w.W, wsize)
-	w.S = drpcstream.NewWithOptions(context.Background(), 1, wr, drpcstream.Options{SplitSize: split, ManualFlush: manual})
+	w.S = drpcstream.NewWithOptions(context.Background(), 1, wr, drpcstream.Options{SplitSize: split, ManualFlush: manual, MaximumBufferSize: append(maxbuf, 0)[0]})
 	w.W.OnWrite = func(p []byte) {
 		if w.S.IsFinished() {
 			w.lateMu.Lock()
